@@ -976,6 +976,9 @@ def C15(tier):
            layout_ob("no-shared-state-writes-more", "Harness_E_C15", shapes(3, 3), {"P4": [2, 3], "P5": [0, 1, 3], "BK": [-1, 2]},
                      consts={"P1": 0, "P2": 0, "SZ": 5, "INTSZ": 1, "NSFIX": 10, "LSFIX": 20}, loop=192,
                      bounds="N<=3 M<=3 x {B&K, NS positioner} x {none,straight,ortho}, concrete sizes")]
+    obs.append(layout_ob("no-shared-state-writes-splines", "Harness_E_C15", shapes(3, 3, selfloops=False, connected=True) if q else shapes(4, 3, selfloops=False, connected=True),
+                         {"P4": [4, 1]}, consts={"P1": 0, "P2": 0, "P5": 4, "SZ": 5, "NSFIX": 10, "LSFIX": 20}, loop=192, enctimeout=200, validate_cubes=0,
+                         bounds="connected loop-free canonical edge lists N<=%s M<=3 x spline routing (Shortest, MergeRects, Sides, FitSpline) x {SinkColoring,VAlign}, concrete sizes; " % nm(q, 3, 4) + B))
     return dict(obligations=obs, level="model_checking")
 
 
